@@ -197,3 +197,59 @@ Definition wf_field (f : bfield) : bool := key_kind (bf_key f) && wf_scalar (bf_
 (* root: may be empty; a ghost at the very start is rejected by the tape parser *)
 Definition wf_doc (fs : list bfield) (gend : bool) : bool :=
   first_no_ghost fs && forallb wf_field fs && (match fs with [] => negb gend | _ => true end).
+
+(* ------------------------------------------------------------------ the expected tape
+   flat_val base v = the BinaryTape tokens of v when its first token sits at index [base]
+   (containers carry absolute indices).  Equal signs and ghost objects leave no trace. *)
+From JV Require Import BinTape.
+
+Definition ttok (s : bscalar) : tok :=
+  match s with
+  | SId id => TToken id
+  | SQuoted x => TQuoted x | SUnquoted x => TUnquoted x
+  | SI32 z => TI32 z | SU32 n => TU32 n | SU64 n => TU64 n | SI64 z => TI64 z
+  | SBool b => TBool b | SF32 x => TF32 x | SF64 x => TF64 x
+  end.
+
+Fixpoint flat_val (base : nat) (v : bval) {struct v} : tape :=
+  match v with
+  | VScalar s => [ttok s]
+  | VRgb c => [TRgb c]
+  | VArr vs =>
+    let inner := (fix go (b : nat) (l : list bval) {struct l} : tape :=
+                    match l with
+                    | [] => []
+                    | x :: r => let t := flat_val b x in t ++ go (b + length t)%nat r
+                    end) (S base) vs in
+    TArray (S base + length inner) :: inner ++ [TEnd base]
+  | VObj fs _ =>
+    let inner := (fix go (b : nat) (l : list bfield) {struct l} : tape :=
+                    match l with
+                    | [] => []
+                    | f :: r => let t := flat_val (S b) (bf_val f) in ttok (bf_key f) :: t ++ go (S b + length t)%nat r
+                    end) (S base) fs in
+    TObject (S base + length inner) :: inner ++ [TEnd base]
+  end.
+
+Fixpoint flat_vals (b : nat) (l : list bval) : tape :=
+  match l with
+  | [] => []
+  | x :: r => flat_val b x ++ flat_vals (b + length (flat_val b x)) r
+  end.
+Fixpoint flat_fields (b : nat) (l : list bfield) : tape :=
+  match l with
+  | [] => []
+  | f :: r => ttok (bf_key f) :: flat_val (S b) (bf_val f) ++ flat_fields (S b + length (flat_val (S b) (bf_val f))) r
+  end.
+Definition flat_doc (fs : list bfield) : tape := flat_fields 0 fs.
+
+(* what the TAPE parser additionally needs: an rgb block is only recognised in object-value position
+   (binary/tape.rs: `LexemeId::RGB if state == ObjectValue`); as an array element its id is an ordinary
+   token followed by an array *)
+Fixpoint tape_ok (v : bval) : bool :=
+  match v with
+  | VScalar _ | VRgb _ => true
+  | VArr vs => forallb (fun x => match x with VRgb _ => false | _ => tape_ok x end) vs
+  | VObj fs _ => forallb (fun f : bfield => tape_ok (bf_val f)) fs
+  end.
+Definition tape_ok_doc (fs : list bfield) : bool := forallb (fun f : bfield => tape_ok (bf_val f)) fs.
